@@ -65,15 +65,15 @@ Proof.
   apply andb_prop in H as [H _]. apply andb_prop in H as [H1 H2].
   apply Bool.eqb_prop in H1. apply Bool.eqb_prop in H2.
   rewrite H1, H2.
-  destruct (String.eqb (o_shape o) "class"); [discriminate|].
-  destruct (String.eqb (o_shape o) "sql_table"); discriminate.
+  destruct (String.eqb (shape_l o) "class"); [discriminate|].
+  destruct (String.eqb (shape_l o) "sql_table"); discriminate.
 Qed.
 
 Lemma to_shape_id th o s : to_shape th o = Some s -> s FId = VS (abs_id (o_path o)).
 Proof.
   unfold to_shape.
-  destruct (String.eqb (o_shape o) "class"); [destruct (o_has_class o)|
-    destruct (String.eqb (o_shape o) "sql_table"); [destruct (o_has_table o)|]];
+  destruct (String.eqb (shape_l o) "class"); [destruct (o_has_class o)|
+    destruct (String.eqb (shape_l o) "sql_table"); [destruct (o_has_table o)|]];
   intro H; inversion H; clear H; subst; ev; reflexivity.
 Qed.
 
@@ -82,8 +82,8 @@ Lemma to_shape_styles th o s f v :
   to_shape th o = Some s -> In f styles_fields -> o_style o f = Some v -> s f = v.
 Proof.
   unfold to_shape.
-  destruct (String.eqb (o_shape o) "class"); [destruct (o_has_class o)|
-    destruct (String.eqb (o_shape o) "sql_table"); [destruct (o_has_table o)|]];
+  destruct (String.eqb (shape_l o) "class"); [destruct (o_has_class o)|
+    destruct (String.eqb (shape_l o) "sql_table"); [destruct (o_has_table o)|]];
   intro H; inversion H; clear H; subst; intros Hin Hs;
   simpl in Hin;
   repeat (destruct Hin as [<-|Hin]; [ev; rewrite Hs; reflexivity|]); destruct Hin.
@@ -93,8 +93,8 @@ Lemma to_shape_animated th o s v :
   to_shape th o = Some s -> o_style o FAnimated = Some v -> s FAnimated = v.
 Proof.
   unfold to_shape.
-  destruct (String.eqb (o_shape o) "class"); [destruct (o_has_class o)|
-    destruct (String.eqb (o_shape o) "sql_table"); [destruct (o_has_table o)|]];
+  destruct (String.eqb (shape_l o) "class"); [destruct (o_has_class o)|
+    destruct (String.eqb (shape_l o) "sql_table"); [destruct (o_has_table o)|]];
   intro H; inversion H; clear H; subst; intros Hs; ev; rewrite Hs; reflexivity.
 Qed.
 
@@ -110,10 +110,10 @@ Proof.
   apply andb_prop in W as [W _]. apply andb_prop in W as [W1 W2].
   apply Bool.eqb_prop in W1. apply Bool.eqb_prop in W2.
   unfold to_shape.
-  destruct (String.eqb (o_shape o) "class") eqn:Ec.
+  destruct (String.eqb (shape_l o) "class") eqn:Ec.
   - rewrite W1. intro H; inversion H; clear H; subst. intro Hs. ev.
     unfold text_font_size. rewrite Hs, W1. simpl. apply vsub_vadd.
-  - destruct (String.eqb (o_shape o) "sql_table") eqn:Et.
+  - destruct (String.eqb (shape_l o) "sql_table") eqn:Et.
     + rewrite W2. intro H; inversion H; clear H; subst. intro Hs. ev.
       unfold text_font_size. rewrite Hs, W2. rewrite orb_true_r. apply vsub_vadd.
     + intro H; inversion H; clear H; subst. intro Hs. ev.
@@ -293,6 +293,22 @@ Section LabelProofs.
       destruct (l_latex it); cbn [negb andb]; [reflexivity|].
       destruct (tt_none (Some v)); cbn [negb] in *; [reflexivity|exact K].
   Qed.
+
+  (* with the repair no hypothesis on the case mappings and no validity condition is needed *)
+  Lemma label_user_transform_wins_fixed caps it v :
+    l_tt it = Some v ->
+    set_dims_label_fixed upper lower title caps it = set_dims_label_fixed upper lower title false it.
+  Proof.
+    intros Ht. unfold set_dims_label_fixed. rewrite Ht. rewrite !andb_false_r.
+    destruct caps; [|reflexivity]. cbn [andb].
+    destruct (l_edge it); [reflexivity|].
+    destruct (negb (String.eqb (l_shape it) "code")); reflexivity.
+  Qed.
+
+  (* and the repair changes nothing when no transform is set or none of the rules fires *)
+  Lemma fixed_agrees_without_user_transform caps it :
+    l_tt it = None -> set_dims_label_fixed upper lower title caps it = sdl caps it.
+  Proof. intro Ht. unfold set_dims_label_fixed, set_dims_label. rewrite Ht. reflexivity. Qed.
 
   (* without a user transform the theme rule applies *)
   Lemma label_capslock_default it :
